@@ -267,3 +267,35 @@ Print Assumptions C05_stat_local_modelled_codecs.
 Theorem C05_text_transparent_satisfiable : forall iph, text_transparent iph (fun s => s).
 Proof. exact text_transparent_id. Qed.
 Print Assumptions C05_text_transparent_satisfiable.
+
+(** * Read-only backend calls
+
+    [spec_ok] = [calls_ok] (the mutating calls are exactly the expected ones; read-only
+    calls may be any, as long as each names the request's resource or destination) and
+    [outcome_ok] (what the client returns).  [C05_model_meets_spec] above is about this
+    specification.  The present code makes exactly the calls of the strict reading: *)
+Theorem C05_model_meets_spec_exact : forall X, codec_laws X -> forall fs ep, ep <> "" -> forall o,
+  let '(calls, out) := run_op X fs ep o in spec_exact X fs ep o calls out = true.
+Proof. exact model_meets_spec_exact. Qed.
+Print Assumptions C05_model_meets_spec_exact.
+
+(** a read-only call (Stat, ReadDir, Open) on a resource the request refers to may be
+    added anywhere among the calls *)
+Theorem C05_spec_tolerates_extra_reads : forall names expected l1 l2 c,
+  is_mutating c = false -> name_in (read_name c) names = true ->
+  calls_ok names expected (l1 ++ l2) = true -> calls_ok names expected (l1 ++ c :: l2) = true.
+Proof. exact calls_ok_extra_read. Qed.
+Print Assumptions C05_spec_tolerates_extra_reads.
+
+(** a read-only call on any other name (a wrongly decoded one, say) is a failure *)
+Theorem C05_spec_refuses_foreign_reads : forall names expected l1 l2 c,
+  is_mutating c = false -> name_in (read_name c) names = false ->
+  calls_ok names expected (l1 ++ c :: l2) = false.
+Proof. exact calls_ok_foreign_read. Qed.
+Print Assumptions C05_spec_refuses_foreign_reads.
+
+(** the mutating calls are exactly the expected ones, in order, with their arguments *)
+Theorem C05_spec_fixes_mutations : forall names expected calls,
+  calls_ok names expected calls = true -> calls_eqb (filter is_mutating calls) expected = true.
+Proof. exact calls_ok_mutations. Qed.
+Print Assumptions C05_spec_fixes_mutations.
